@@ -1497,7 +1497,12 @@ type vgcPH struct {
 	order      []string
 	lastMd     digest.Digest
 	lastMdSize int64
+	t0         time.Time // start of the scenario (NEW): the window arithmetic of a pass assumes that a scenario takes well under a second
 }
+
+// vgcSlow: more real time than the scenario's clock normalisations allow for (the store revalidates index.json once a second,
+// the window of a pass is one second wide with 250 ms of slack): on a loaded machine the outcome is printed but not judged
+const vgcSlow = 500 * time.Millisecond
 
 // slog handler that records the order in which repositories start their collection
 type vgcLogH struct{ h *vgcPH }
@@ -1866,6 +1871,8 @@ func (h *vgcPH) passOp() string {
 	answers := map[string]bool{}
 	last := ""
 	tick := time.Now() // one tick for all repetitions: what T / U did "just now" stays inside the window
+	slowStart := tick.Sub(h.t0) > vgcSlow
+	defer func() { h.t0 = time.Now() }()
 	for k := 0; k < reps; k++ {
 		if k > 0 {
 			h.restore(sn, bak)
@@ -1900,6 +1907,10 @@ func (h *vgcPH) passOp() string {
 				starved = pr.name
 			}
 		}
+		if starved != "" && (slowStart || time.Since(tick) > 2*vgcSlow) {
+			h.cov["slow-not-judged"]++
+			starved = ""
+		}
 		if starved != "" {
 			h.cov["starved"]++
 			h.flag("pass-starved", fmt.Sprintf("repository %s is due and holds garbage but was not collected in a pass that visited [%s] (failing repository: %s, pass error: %v)", starved, order, failing, err != nil))
@@ -1909,6 +1920,10 @@ func (h *vgcPH) passOp() string {
 	}
 	if bak != "" {
 		_ = os.RemoveAll(bak)
+	}
+	if slowStart || time.Since(tick) > 2*vgcSlow {
+		h.cov["slow-not-judged"]++
+		return "~slow " + last
 	}
 	if len(answers) > 1 {
 		h.cov["order-dependent-pass"]++
@@ -1944,6 +1959,7 @@ func (h *vgcPH) apply(line string) string {
 			return "bad-op"
 		}
 		h.close()
+		h.t0 = time.Now()
 		h.pol = vgcPolicy{t[1] == "1", t[2] == "1", t[3] == "1", t[4] == "1", t[5] == "1"}
 		h.n++
 		if h.kind == "dir" {
